@@ -1002,20 +1002,122 @@ Proof. intros HW. eapply Forall_impl; [|apply (W_shape c HW)]. apply shape_simpl
 Lemma shape_not_stuck th : shape th -> tph th <> PStuck.
 Proof. intros [ws ? Hp | w ws ? Hp | ? Hp | ? Hp | ? Hp | ? Hp | ? Hp | ? Hp | ? Hp]; rewrite Hp; discriminate. Qed.
 
+(* ------------------------------------------------------------------------- *)
+(* the same programs with their goroutines numbered in any order             *)
+(* ------------------------------------------------------------------------- *)
+
+Definition pc_wf (cap : nat) (vss : list (list Z)) (nc nd : nat) (c0 : config) : Prop :=
+  queues c0 = [mkq cap] /\ wg c0 = length vss /\
+  Permutation (threads c0) (threads (pc_config cap vss nc nd)).
+
+Lemma pc_wf_refl cap vss nc nd : pc_wf cap vss nc nd (pc_config cap vss nc nd).
+Proof. repeat split. apply Permutation_refl. Qed.
+
+Lemma cnt_perm p l l' : Permutation l l' -> cnt p l = cnt p l'.
+Proof.
+  unfold cnt. induction 1 as [|x l l' _ IH|x y l|l l' l'' _ IH1 _ IH2]; simpl; auto.
+  - destruct (p x); simpl; lia.
+  - destruct (p x), (p y); simpl; lia.
+  - lia.
+Qed.
+
+Lemma concat_map_perm {A B} (f : A -> list B) l l' :
+  Permutation l l' -> Permutation (concat (map f l)) (concat (map f l')).
+Proof.
+  induction 1 as [|x l l' _ IH|x y l|l l' l'' _ IH1 _ IH2]; simpl; auto.
+  - now apply Permutation_app_head.
+  - rewrite !app_assoc. apply Permutation_app_tail, Permutation_app_comm.
+  - etransitivity; eauto.
+Qed.
+
+Lemma list_sum_map_perm {A} (f : A -> nat) l l' :
+  Permutation l l' -> list_sum (map f l) = list_sum (map f l').
+Proof.
+  induction 1 as [|x l l' _ IH|x y l|l l' l'' _ IH1 _ IH2]; simpl; auto; lia.
+Qed.
+
+Lemma pc_wf_initial cap vss nc nd c0 : pc_wf cap vss nc nd c0 -> initial c0.
+Proof.
+  intros (Hq & _ & Hp). split; [exists [cap]; exact Hq|].
+  apply (Permutation_Forall (Permutation_sym Hp)). apply pc_initial.
+Qed.
+
+Lemma pc_wf_W cap vss nc nd c0 :
+  1 <= cap -> 1 <= nc -> pc_wf cap vss nc nd c0 -> W c0.
+Proof.
+  intros Hcap Hnc Hwf. pose proof (pc_wf_initial _ _ _ _ _ Hwf) as Hi.
+  destruct Hwf as (Hq & Hwg & Hp).
+  destruct (pc_threads_cls cap vss nc nd) as (A & B & C & D). cbv zeta in A, B, C, D.
+  assert (G : getq c0 0 = mkq cap) by (unfold getq; now rewrite Hq).
+  constructor.
+  - split; [now apply initial_inv | now apply initial_rng].
+  - now rewrite Hq.
+  - rewrite G. exact Hcap.
+  - apply (Permutation_Forall (Permutation_sym Hp)). apply (W_shape _ (pc_W cap vss nc nd Hcap Hnc)).
+  - now rewrite Hwg, (cnt_perm _ _ _ Hp), A.
+  - rewrite G, (cnt_perm _ _ _ Hp), C. reflexivity.
+  - rewrite (cnt_perm _ _ _ Hp), B. discriminate.
+  - left. now rewrite (cnt_perm _ _ _ Hp), D.
+Qed.
+
+Theorem wf_reachable_W cap vss nc nd c0 c :
+  1 <= cap -> 1 <= nc -> pc_wf cap vss nc nd c0 -> reachable c0 c -> W c.
+Proof.
+  intros Hcap Hnc Hwf [s <-]. apply (run_ind_inv W).
+  - intros; eapply step_preserves_W; eauto.
+  - apply (pc_wf_W cap vss nc nd c0 Hcap Hnc Hwf).
+Qed.
+
+Lemma pc_wf_pending cap vss nc nd c0 :
+  pc_wf cap vss nc nd c0 -> Permutation (pending 0 c0) (concat vss).
+Proof.
+  intros (_ & _ & Hp). rewrite <- (pc_pending cap vss nc nd). unfold pending.
+  now apply concat_map_perm.
+Qed.
+
+Lemma pc_no_removeall cap vss nc : no_removeall (pc_config cap vss nc 0).
+Proof.
+  unfold no_removeall, pc_config. cbn [threads]. simpl repeat. rewrite app_nil_r.
+  repeat (apply Forall_app; split).
+  - apply Forall_forall. intros x Hx. apply in_map_iff in Hx. destruct Hx as (vs & <- & _).
+    split; [intros; discriminate|]. intros q Hin. simpl in Hin. apply in_app_or in Hin.
+    destruct Hin as [Hin|[Hin|[]]]; [|discriminate].
+    apply in_map_iff in Hin. destruct Hin as (? & ? & _). discriminate.
+  - constructor; [|constructor]. split; [intros; discriminate|].
+    intros q Hin. simpl in Hin. intuition discriminate.
+  - apply Forall_forall. intros x Hx. apply repeat_spec in Hx. subst.
+    split; [intros; discriminate|]. intros q Hin. simpl in Hin. intuition discriminate.
+Qed.
+
+Lemma pc_wf_no_removeall cap vss nc c0 : pc_wf cap vss nc 0 c0 -> no_removeall c0.
+Proof.
+  intros (_ & _ & Hp). apply (Permutation_Forall (Permutation_sym Hp)). apply pc_no_removeall.
+Qed.
+
+Lemma popped_single c :
+  length (queues c) = 1 -> popped c = qpop (getq c 0).
+Proof.
+  intros Hl. unfold popped, getq. destruct (queues c) as [|s0 [|s1 r]]; simpl in Hl; try discriminate.
+  simpl. now rewrite app_nil_r.
+Qed.
+
 (* a configuration of a well-formed program in which nothing can move: everything finished,
-   nothing panicked, the queue is closed and empty and every value was popped exactly once *)
-Theorem pc_terminal cap vss nc nd c :
-  1 <= cap -> 1 <= nc -> reachable (pc_config cap vss nc nd) c ->
+   nothing panicked, the queue is closed and empty and every value was popped exactly once;
+   the delivered values are all of them when nobody calls RemoveAll, and otherwise all of them
+   except those some RemoveAll discarded *)
+Theorem pc_terminal cap vss nc nd c0 c :
+  1 <= cap -> 1 <= nc -> pc_wf cap vss nc nd c0 -> reachable c0 c ->
   (forall t, step c t = None) ->
   final c = true /\ no_stuck c /\
   qclosed (getq c 0) = true /\ qtok (getq c 0) = 0 /\ qvals (getq c 0) = [] /\
   qpop (getq c 0) = qapp (getq c 0) /\
   Permutation (qapp (getq c 0)) (concat vss) /\
+  (exists discarded, Permutation (delivered c ++ discarded) (concat vss)) /\
   (nd = 0 -> Permutation (delivered c) (concat vss)).
 Proof.
-  intros Hcap Hnc Hr Hall.
-  pose proof (reachable_W _ _ _ _ _ Hcap Hnc Hr) as HW.
-  pose proof (pc_initial cap vss nc nd) as Hi.
+  intros Hcap Hnc Hwf Hr Hall.
+  pose proof (wf_reachable_W _ _ _ _ _ _ Hcap Hnc Hwf Hr) as HW.
+  pose proof (pc_wf_initial _ _ _ _ _ Hwf) as Hi.
   assert (Hf : final c = true) by (apply all_blocked_final; auto).
   assert (Hns : no_stuck c).
   { eapply Forall_impl; [|apply (W_shape c HW)]. apply shape_not_stuck. }
@@ -1037,24 +1139,17 @@ Proof.
   assert (Hpend : pending 0 c = []).
   { unfold pending. apply concat_map_nil. intros th Hin. unfold pend_th.
     rewrite (proj1 (Hz th Hin)). destruct (tph th); reflexivity. }
+  assert (Hq0 : 0 < length (queues c0)) by (rewrite (proj1 Hwf); simpl; lia).
   assert (Hperm : Permutation (qapp (getq c 0)) (concat vss)).
-  { pose proof (values_conserved _ c 0 Hi (W_simple _ (pc_W cap vss nc nd Hcap Hnc)) ltac:(simpl; lia) Hr) as HP.
-    rewrite Hpend, app_nil_r, pc_pending in HP. exact HP. }
+  { pose proof (values_conserved _ c 0 Hi (W_simple _ (pc_wf_W _ _ _ _ _ Hcap Hnc Hwf)) Hq0 Hr) as HP.
+    rewrite Hpend, app_nil_r in HP. rewrite HP. now apply (pc_wf_pending cap vss nc nd). }
+  assert (Hpop : popped c = qpop (getq c 0)) by (apply (popped_single c); apply (W_len c HW)).
   repeat split; auto.
-  intros ->.
-  assert (Hnr : no_removeall (pc_config cap vss nc 0)).
-  { unfold no_removeall, pc_config. cbn [threads]. simpl repeat. rewrite app_nil_r.
-    repeat (apply Forall_app; split).
-    - apply Forall_forall. intros x Hx. apply in_map_iff in Hx. destruct Hx as (vs & <- & _).
-      split; [intros; discriminate|]. intros q Hin. simpl in Hin. apply in_app_or in Hin.
-      destruct Hin as [Hin|[Hin|[]]]; [|discriminate].
-      apply in_map_iff in Hin. destruct Hin as (? & ? & _). discriminate.
-    - constructor; [|constructor]. split; [intros; discriminate|].
-      intros q Hin. simpl in Hin. intuition discriminate.
-    - apply Forall_forall. intros x Hx. apply repeat_spec in Hx. subst.
-      split; [intros; discriminate|]. intros q Hin. simpl in Hin. intuition discriminate. }
-  pose proof (exactly_once_single _ c cap Hi eq_refl Hnr Hr) as HD.
-  rewrite HD, <- Happ. exact Hperm.
+  - destruct (at_most_once _ _ Hi Hr) as [d Hd]. exists d.
+    rewrite Hd, Hpop, <- Happ. exact Hperm.
+  - intros ->.
+    pose proof (exactly_once _ c Hi (pc_wf_no_removeall _ _ _ _ Hwf) Hr) as HD.
+    rewrite HD, Hpop, <- Happ. exact Hperm.
 Qed.
 
 (* termination: schedules of enabled steps are bounded, and a run to a final configuration
@@ -1075,9 +1170,8 @@ Proof.
     exists (t :: s), c'. simpl. rewrite E. auto.
 Qed.
 
-Theorem pc_terminates cap vss nc nd :
-  1 <= cap -> 1 <= nc ->
-  let c0 := pc_config cap vss nc nd in
+Theorem pc_terminates cap vss nc nd c0 :
+  1 <= cap -> 1 <= nc -> pc_wf cap vss nc nd c0 ->
   (* every step from a reachable configuration decreases the measure *)
   (forall c t c', reachable c0 c -> step c t = Some c' -> mu c' < mu c) /\
   (* so a schedule that only names enabled threads is no longer than mu c0 *)
@@ -1087,28 +1181,31 @@ Theorem pc_terminates cap vss nc nd :
   (* from every reachable configuration some schedule runs to a final configuration *)
   (forall c, reachable c0 c -> exists s c', run_strict c s = Some c' /\ final c' = true).
 Proof.
-  intros Hcap Hnc c0. subst c0. repeat split.
+  intros Hcap Hnc Hwf. repeat split.
   - intros c t c' Hr H. apply (step_decreases_mu c t c'); auto.
-    apply W_simple. apply (reachable_W cap vss nc nd c Hcap Hnc Hr).
-  - intros s c H. pose proof (run_strict_bound _ s c (W_simple _ (pc_W cap vss nc nd Hcap Hnc)) H). lia.
-  - intros c Hr. apply W_deadlock_free. apply (reachable_W cap vss nc nd c Hcap Hnc Hr).
-  - intros c Hr. apply (W_can_finish (mu c)); auto. apply (reachable_W cap vss nc nd c Hcap Hnc Hr).
+    apply W_simple. apply (wf_reachable_W cap vss nc nd c0 c Hcap Hnc Hwf Hr).
+  - intros s c H.
+    pose proof (run_strict_bound _ s c (W_simple _ (pc_wf_W _ _ _ _ _ Hcap Hnc Hwf)) H). lia.
+  - intros c Hr. apply W_deadlock_free. apply (wf_reachable_W cap vss nc nd c0 c Hcap Hnc Hwf Hr).
+  - intros c Hr. apply (W_can_finish (mu c)); auto.
+    apply (wf_reachable_W cap vss nc nd c0 c Hcap Hnc Hwf Hr).
 Qed.
 
 (* a maximal run (strict schedule after which nothing is enabled) ends as pc_terminal says *)
-Theorem pc_maximal_run cap vss nc nd s c :
-  1 <= cap -> 1 <= nc ->
-  run_strict (pc_config cap vss nc nd) s = Some c -> (forall t, enabled c t = false) ->
-  length s <= mu (pc_config cap vss nc nd) /\
+Theorem pc_maximal_run cap vss nc nd c0 s c :
+  1 <= cap -> 1 <= nc -> pc_wf cap vss nc nd c0 ->
+  run_strict c0 s = Some c -> (forall t, enabled c t = false) ->
+  length s <= mu c0 /\
   final c = true /\ no_stuck c /\
   qclosed (getq c 0) = true /\ qtok (getq c 0) = 0 /\ qvals (getq c 0) = [] /\
   qpop (getq c 0) = qapp (getq c 0) /\
   Permutation (qapp (getq c 0)) (concat vss) /\
+  (exists discarded, Permutation (delivered c ++ discarded) (concat vss)) /\
   (nd = 0 -> Permutation (delivered c) (concat vss)).
 Proof.
-  intros Hcap Hnc Hs Hen. split.
-  - apply (proj1 (proj2 (pc_terminates cap vss nc nd Hcap Hnc)) s c Hs).
-  - apply (pc_terminal cap vss nc nd c Hcap Hnc).
+  intros Hcap Hnc Hwf Hs Hen. split.
+  - apply (proj1 (proj2 (pc_terminates cap vss nc nd c0 Hcap Hnc Hwf)) s c Hs).
+  - apply (pc_terminal cap vss nc nd c0 c Hcap Hnc Hwf).
     + exists s. now apply run_strict_run.
     + intros t. specialize (Hen t). unfold enabled in Hen. destruct (step c t); [discriminate|auto].
 Qed.
@@ -1120,7 +1217,6 @@ Proof.
   rewrite !map_app, !list_sum_app.
   assert (P : list_sum (map th_cost (map producer vss)) = 4 * length (concat vss) + length vss).
   { induction vss as [|vs vss IH]; simpl; auto. rewrite app_length.
-    change (map th_cost (map producer vss)) with (map th_cost (map producer vss)).
     rewrite IH. unfold th_cost at 1. simpl. rewrite calls_cost_app.
     assert (Q : calls_cost (map (CAdd 0) vs) = 4 * length vs).
     { clear. induction vs as [|v vs IH]; auto. unfold calls_cost in *. simpl. rewrite IH. lia. }
@@ -1133,22 +1229,29 @@ Proof.
   rewrite C, D. simpl. lia.
 Qed.
 
+Lemma mu_pc_wf cap vss nc nd c0 : pc_wf cap vss nc nd c0 ->
+  mu c0 = 4 * length (concat vss) + length vss + 2 + nc + nd.
+Proof.
+  intros (Hq & _ & Hp). rewrite <- (mu_pc cap vss nc nd). unfold mu. rewrite Hq.
+  now rewrite (list_sum_map_perm th_cost _ _ Hp).
+Qed.
+
 (* ------------------------------------------------------------------------- *)
 (* statements as used by C05.v                                               *)
 (* ------------------------------------------------------------------------- *)
 
-Theorem pc_deadlock_free cap vss nc nd c :
-  1 <= cap -> 1 <= nc -> reachable (pc_config cap vss nc nd) c -> deadlocked c = false.
-Proof. intros Hcap Hnc Hr. apply W_deadlock_free. eapply (reachable_W cap vss nc nd); eauto. Qed.
+Theorem pc_deadlock_free cap vss nc nd c0 c :
+  1 <= cap -> 1 <= nc -> pc_wf cap vss nc nd c0 -> reachable c0 c -> deadlocked c = false.
+Proof. intros Hcap Hnc Hwf Hr. apply W_deadlock_free. apply (wf_reachable_W cap vss nc nd c0 c Hcap Hnc Hwf Hr). Qed.
 
-Theorem pc_progress cap vss nc nd c :
-  1 <= cap -> 1 <= nc -> reachable (pc_config cap vss nc nd) c -> final c = false ->
+Theorem pc_progress cap vss nc nd c0 c :
+  1 <= cap -> 1 <= nc -> pc_wf cap vss nc nd c0 -> reachable c0 c -> final c = false ->
   exists t, t < length (threads c) /\ enabled c t = true.
-Proof. intros Hcap Hnc Hr. apply W_progress. eapply (reachable_W cap vss nc nd); eauto. Qed.
+Proof. intros Hcap Hnc Hwf Hr. apply W_progress. apply (wf_reachable_W cap vss nc nd c0 c Hcap Hnc Hwf Hr). Qed.
 
-Theorem pc_no_panic cap vss nc nd c :
-  1 <= cap -> 1 <= nc -> reachable (pc_config cap vss nc nd) c -> no_stuck c.
+Theorem pc_no_panic cap vss nc nd c0 c :
+  1 <= cap -> 1 <= nc -> pc_wf cap vss nc nd c0 -> reachable c0 c -> no_stuck c.
 Proof.
-  intros Hcap Hnc Hr. pose proof (reachable_W cap vss nc nd c Hcap Hnc Hr) as HW.
+  intros Hcap Hnc Hwf Hr. pose proof (wf_reachable_W cap vss nc nd c0 c Hcap Hnc Hwf Hr) as HW.
   eapply Forall_impl; [|apply (W_shape c HW)]. apply shape_not_stuck.
 Qed.
